@@ -22,6 +22,7 @@ recording = False
 _jitter = None  # (random.Random, max_seconds)
 _parks = {}  # point name -> dict(arrived=Event, release=Event, left=int)
 _names = {}
+_polls = 0
 _gate = None  # Gate: the hook-granular scheduler used by vp/rt/regsched.py
 
 
@@ -35,7 +36,8 @@ def name_thread(tag):
 
 
 def reset(record=True, jitter_seed=None, jitter_max=0.0):
-    global recording, _jitter
+    global recording, _jitter, _polls
+    _polls = 0
     with _lock:
         del EVENTS[:]
         _parks.clear()
@@ -47,6 +49,13 @@ def emit(name, **fields):
     """Record one event; returns its sequence number."""
     if not recording:
         return 0
+    if name == "sr.svc.poll":
+        # a service loop that spins (no delay, no checkpoint) would flood the trace: the first
+        # few thousand polls are all anybody needs
+        global _polls
+        _polls += 1
+        if _polls > 5000:
+            return 0
     with _lock:
         n = next(_seq)
         ev = {"seq": n, "th": thread_tag(), "tid": threading.get_ident(), "e": name}
